@@ -601,3 +601,14 @@ def run(ctx, rep):
         writer_vs_grammar(ctx, rep)
     json_names(ctx.F, rep)
     mcp_routing(ctx.F, rep)
+
+
+def controls(pctx, rep):
+    """string synthesis must still read a format!, a `&mut String` helper, push and push_str"""
+    F = pctx.F
+    try:
+        b = F.one("strsyn_two_alternatives")
+        got = sorted({"".join(p[1] if p[0] == "lit" else "{}" for p in (r["parts"] or [])) for r in StrSyn(F).returns(b)})
+        rep.control("R1:strsyn", got == ["X {}", "X {} Y"], f"posctl::strsyn_two_alternatives synthesises {got} (expected ['X {{}}', 'X {{}} Y'])")
+    except Exception as e:
+        rep.control("R1:strsyn", False, f"string synthesis failed on posctl::strsyn_two_alternatives: {e}")
